@@ -118,9 +118,20 @@ func VerifC15_Read() {
 	if err != nil {
 		return
 	}
+	number, lun := rec.Number, rec.OwnerLUN
+	if vBool() {
+		// the caller reuses its record value (e.g. decodes the next SDR into it) before
+		// reading: the reader was built for the record as it was at construction
+		*rec = ipmi.FullSensorRecord{}
+		rec.Number, rec.OwnerLUN = vByte(), ipmi.LUN(vByte()&3)
+		rec.Linearisation = ipmi.Linearisation(vByte())
+		rec.AnalogDataFormat = ipmi.AnalogDataFormat(vByte() & 3)
+		rec.ConversionFactors = ipmi.ConversionFactors{M: int16(vU16()), B: int16(vU16()), BExp: int8(vByte()), RExp: int8(vByte())}
+		vReached("?record-reused")
+	}
 	s := &vReadingSession{reading: vByte(), flags: vByte()}
 	got, err := reader.Read(context.Background(), s)
-	vAssert(s.calls == 1 && s.numberSeen == rec.Number && s.lunSeen == rec.OwnerLUN, "c15-reads-the-record's-sensor-at-its-owner-lun")
+	vAssert(s.calls == 1 && s.numberSeen == number && s.lunSeen == lun, "c15-reads-the-record's-sensor-at-its-owner-lun")
 	unavailable := s.flags&(1<<5) != 0
 	disabled := s.flags&(1<<6) == 0
 	if unavailable || disabled {
